@@ -13,7 +13,7 @@ NAMESPACE = 'Props.C07'
 LEAN_CONE = ['PncModel.NcStore', 'PncProofs.C07']
 LEMMA_FILES = []
 REQUIRED_THEOREMS = ['cell_roundtrip', 'var_roundtrip', 'file_roundtrip', 'second_cycle', 'mask_lost_counterexample', 'default_fill_counterexample']
-RULE = ('[second cycle] every reopened file (a netcdf-class object whose variables live on disk) is saved and reopened once more and must come back unchanged; ' +
+RULE = ('[derived] variables replaced by ones derived from them with another value type (var * 0.5, astype) are saved with the type of their values; [second cycle] every reopened file (a netcdf-class object whose variables live on disk) is saved and reopened once more and must come back unchanged; ' +
         'random files (1-3 dimensions, optional unlimited first dimension - several unlimited dimensions in NETCDF4 -, 1-5 variables of every dtype the flavour '
         'can store incl. char, rank 0-3, masked variables whose fill is given as fill_value / missing_value / '
         '_FillValue / both (equal or different) / by no attribute at all (netCDF default fill), str / float / int / array attributes on variables and file, a '
@@ -69,7 +69,10 @@ def gen(rng, tier):
                            # type (a cell never written): read as masked, it has to stay masked through the second cycle
                            hit_default=(how is None and dt not in 'bB' and rng.random() < 0.25),
                            # nan / inf in cells of a masked float variable that are NOT masked: they are values
-                           naninf=(how is not None and dt in 'fd' and rng.random() < 0.2)))
+                           naninf=(how is not None and dt in 'fd' and rng.random() < 0.2),
+                           # the variable is replaced by one derived from it whose values have another type (arithmetic with
+                           # a float, astype): the type that is saved is the type of the values
+                           derive=(rng.choice(['half', 'astype']) if how in (None, 'fill_value') and vd and rng.random() < 0.2 else None)))
         # the unlimited dimension needs a variable, otherwise netCDF cannot store its length
         for d in dims:
             if d[2] and not any(d[0] in v['dims'] for v in vs):
@@ -157,6 +160,10 @@ def build(case):
             var[...] = vals
         for a in v['attrs']:
             setattr(var, a, _val(VATTRS[a]))
+        if v.get('derive') == 'half':
+            f.variables[v['name']] = var * 0.5
+        elif v.get('derive') == 'astype':
+            f.variables[v['name']] = var.astype('f' if v['dt'] == 'd' else 'd')
     for a in case['gattrs']:
         setattr(f, a, _val(GATTRS[a]))
     return f
